@@ -18,10 +18,25 @@ package ipfshttp
 //@   modifies nothing
 
 // a POST to the daemon: nil only after a 200 (checkResponse); counted
-//@ func (ipfs *Connector) postCtx
+// assumed (not verified): the HTTP exchange itself
+//@ func (ipfs *Connector) doPostCtx
 //@   opts trusted
+//@   ensures err == nil ==> res != nil
+//@   modifies nothing
+
+// assumed (not verified): status line / error document decoding
+//@ func checkResponse
+//@   opts trusted
+//@   modifies nothing
+
+// "reports daemon and transport failures as errors": callers tell a transport failure (error, NO body) from an error
+// answered by the daemon (error WITH the daemon's body); a body is returned with an error only in the second case
+//@ func (ipfs *Connector) postCtx
+//@   property C16
 //@   counts postN when true
 //@   counts postOK when err == nil
+//@   ensures [body-with-an-error-is-the-daemons-error-body] err != nil && !isnil(res1) ==> same(res1, errBody)
+//@   ensures [success-has-the-body-read] err == nil ==> same(res1, body)
 //@   modifies nothing
 
 //@ func (ipfs *Connector) PinLsCid
